@@ -73,7 +73,8 @@ def run_one(seed, preset=None, tier="quick", want_case=False):
     ft = tape.sub("fault")
     case = gen_case(tape, doc_knobs={"max_ops": 2})
     cfg = pick_engine_cfg(cfgt)
-    plan_knobs = {"long_list_pct": 3, "mid_list_pct": 4}
+    # lists beyond 4096 items are expensive (every fault execution repeats them): all thorough runs, a third of the quick ones
+    plan_knobs = {"long_list_pct": 3, "mid_list_pct": 4, "huge_list": tier != "quick" or seed % 3 == 0}
     base = make_plan(case, tape, knobs=plan_knobs)
     r = base_result(tape)
     r["case_digest"] = case.digest()
